@@ -460,6 +460,56 @@ def check_value_arg(v):
 
 PACK_NAMES = ['Ts', 'Args', 'Us']
 
+# every spelling of every fundamental type: the keyword multisets of [dcl.type.simple], each in every order
+FUND_SETS = [('char',), ('signed', 'char'), ('unsigned', 'char'), ('short',), ('short', 'int'), ('signed', 'short'), ('signed', 'short', 'int'),
+             ('unsigned', 'short'), ('unsigned', 'short', 'int'), ('int',), ('signed',), ('signed', 'int'), ('unsigned',), ('unsigned', 'int'),
+             ('long',), ('long', 'int'), ('signed', 'long'), ('signed', 'long', 'int'), ('unsigned', 'long'), ('unsigned', 'long', 'int'),
+             ('long', 'long'), ('long', 'long', 'int'), ('signed', 'long', 'long'), ('signed', 'long', 'long', 'int'),
+             ('unsigned', 'long', 'long'), ('unsigned', 'long', 'long', 'int'), ('float',), ('double',), ('long', 'double'),
+             ('bool',), ('wchar_t',), ('char16_t',), ('char32_t',)]
+
+
+def fund_spellings():
+    import itertools
+    out = []
+    for fs in FUND_SETS:
+        for perm in sorted(set(itertools.permutations(fs))):
+            out.append(' '.join(perm))
+    return out
+
+
+CV_PLACEMENTS = [('', ''), ('const', ''), ('', 'const'), ('volatile', ''), ('', 'volatile'), ('const volatile', ''), ('', 'const volatile'),
+                 ('', 'volatile const'), ('const', 'volatile'), ('volatile', 'const')]
+CV_HOSTS = [('variable', '%s x;', lambda d: d.namespace.variables[0].type),
+            ('static variable', 'static %s x;', lambda d: d.namespace.variables[0].type),
+            ('pointer variable', '%s *x;', lambda d: d.namespace.variables[0].type.ptr_to),
+            ('parameter', 'void f(%s x);', lambda d: d.namespace.functions[0].parameters[0].type),
+            ('typedef', 'typedef %s x;', lambda d: d.namespace.typedefs[0].type),
+            ('field', 'struct S { %s x; };', lambda d: d.namespace.classes[0].fields[0].type),
+            ('return type', '%s x();', lambda d: d.namespace.functions[0].return_type),
+            ('template argument', 'Tmpl<%s> x;', lambda d: d.namespace.variables[0].type.typename.segments[0].specialization.args[0].arg)]
+
+
+def check_spelling(host, base, before, after):
+    """the base name is reported as written and const / volatile are reported wherever in the specifier sequence they are written"""
+    hname, fmt, get = host
+    text = ' '.join(x for x in (before, base, after) if x)
+    src = fmt % text
+    try:
+        ty = get(parse_string(src))
+    except (impl.CxxParseError, AssertionError) as e:
+        return "%s: `%s` is rejected: %s" % (hname, src, str(e)[:100])
+    except Exception as e:
+        return "%s: `%s` is not reported as the expected declaration (%s)" % (hname, src, type(e).__name__)
+    if not isinstance(ty, T.Type):
+        return "%s: `%s` is reported as %s, not as a named type" % (hname, src, type(ty).__name__)
+    cv = (before + ' ' + after).split()
+    if squash(ty.typename.format()) != squash(base):
+        return "%s: `%s` reports the type name `%s`" % (hname, src, ty.typename.format())
+    if ty.const != ('const' in cv) or ty.volatile != ('volatile' in cv):
+        return "%s: `%s` reports const=%s volatile=%s" % (hname, src, ty.const, ty.volatile)
+    return None
+
 
 def gen_arg_list(rng):
     """(source, expected): expected = list of ('type', tree, pack) | ('value', squashed text, pack)"""
@@ -548,7 +598,8 @@ def search(ctx, boost=False):
               "(fundamental groups, qualified, templated, typename, decltype, class-key), each printed by the independent inner-end printer "
               "and parsed in every context where it can be written (variable, extern, named / abstract / method parameter, field, typedef, alias, "
               "template argument, return type); expected: the tree itself and the core name. Plus flag placement cases and non-type template "
-              "arguments. non-trivial = tree with >=2 constructors or a parameter list; distinct = distinct (tree, context)" % depth)
+              "arguments; every spelling (keyword order) of every fundamental type and some named types with const / volatile at every place of "
+              "the specifier sequence, in eight hosts. non-trivial = tree with >=2 constructors or a parameter list; distinct = distinct (tree, context)" % depth)
     trees = list(decl.enum_types(depth))
     n_rand = ctx.scale(400, 8000) * (3 if boost else 1)
     for _ in range(n_rand):
@@ -582,6 +633,20 @@ def search(ctx, boost=False):
         msg = check_arg_list(*case)
         if msg:
             s.violations.append(dict(what=msg, case=dict(kind='arglist', source=case[0], expected=repr(case[1]))))
+    # every spelling of every fundamental type and a few named types, with const / volatile at every place of the specifier sequence
+    spell = fund_spellings() + ['Foo', 'ns::Foo', '::Bar', 'std::vector<int>', 'typename T::type']
+    for bi, base in enumerate(spell):
+        for hi, host in enumerate(CV_HOSTS):
+            if not (ctx.thorough or boost) and (bi + hi) % 2:
+                continue
+            for before, after in CV_PLACEMENTS:
+                s.evaluations += 1
+                s.count("specifier spelling")
+                if before or after or ' ' in base:
+                    s.nontrivial.add(('spell', base, host[0], before, after))
+                msg = check_spelling(host, base, before, after)
+                if msg:
+                    s.violations.append(dict(what=msg, case=dict(kind='spelling', host=host[0], base=base, before=before, after=after)))
     for v in VALUE_ARGS:
         s.evaluations += 1
         s.count("value argument")
@@ -628,6 +693,10 @@ def replay(ctx, case):
         return [msg] if msg else []
     if k == 'value':
         msg = check_value_arg(case["value"])
+        return [msg] if msg else []
+    if k == 'spelling':
+        host = [h for h in CV_HOSTS if h[0] == case["host"]][0]
+        msg = check_spelling(host, case["base"], case["before"], case["after"])
         return [msg] if msg else []
     return []
 
